@@ -15,7 +15,8 @@ vars == <<l, mon, run, bad>>
 NoCfg == [hasprefix |-> FALSE, base |-> "", dtags |-> <<>>, dcid |-> [has |-> FALSE, v |-> ""], handler |-> FALSE]
 Init == l = 1 /\ run = 0 /\ bad = {} /\ mon = P!CInit(NoCfg)
 E == Rec[l]
-Note(b, vs) == IF Cardinality(b) > 400 THEN b ELSE b \cup { <<v[1], v[2], run, l>> : v \in vs }
+\* (bounded PER PROPERTY, so that a flood of flags of one property cannot hide another property's)
+Note(b, vs) == b \cup { <<v[1], v[2], run, l>> : v \in { w \in vs : Cardinality({x \in b : x[1] = w[1]}) < 120 } }
 Step(m2) == /\ mon' = m2 /\ bad' = Note(bad, m2.viol \ mon.viol) /\ l' = l + 1 /\ UNCHANGED run
 
 Reset == /\ E.ev = "reset"
